@@ -99,7 +99,8 @@ let rec has_ptr (x : leafv value) : bool =
   | VVariant (_, v) -> has_ptr v
   | VPtr _ -> true
 
-let mhash x = hash leaf_h x
+(* the_params: the constants the translator read from hash.hpp on this run (extracted from Misc/HashInst.v) *)
+let mhash x = hash the_params leaf_h x
 let meq x y = veqb leaf_eqb x y
 let mlt x y = vltb leaf_ltb x y
 let b01 b = if b then "1" else "0"
@@ -179,14 +180,14 @@ let history_model code sa sb sf =
   if String.length code <> 4 then raise Bad;
   let a = parse_value sa and b = parse_value sb and fill = parse_values sf in
   (match a, b with VObj _, VObj _ -> () | _ -> raise Bad);
-  let (zm, seen) = hrun leaf_h (history_ops code b) (members a) [] in
+  let (zm, seen) = hrun the_params leaf_h (history_ops code b) (members a) [] in
   let z = VObj zm in
-  let t1 = tbuild leaf_h leaf_eqb (kv_of (fill @ [b])) in
-  let t2 = tbuild leaf_h leaf_eqb (kv_of (fill @ [z])) in
-  let t3 = tbuild leaf_h leaf_eqb (kv_of (fill @ [z; b])) in
+  let t1 = tbuild the_params leaf_h leaf_eqb (kv_of (fill @ [b])) in
+  let t2 = tbuild the_params leaf_h leaf_eqb (kv_of (fill @ [z])) in
+  let t3 = tbuild the_params leaf_h leaf_eqb (kv_of (fill @ [z; b])) in
   Printf.sprintf "HH %s %s EQ %s OPS %s F %s %s %d LH %s" (hex_of_n (last seen)) (hex_of_n (mhash b))
     (b01 (meq z b)) (ops_str (model_ops z b))
-    (b01 (tfind leaf_h leaf_eqb t1 z <> None)) (b01 (tfind leaf_h leaf_eqb t2 b <> None)) (List.length t3) (lh_of [a; b])
+    (b01 (tfind the_params leaf_h leaf_eqb t1 z <> None)) (b01 (tfind the_params leaf_h leaf_eqb t2 b <> None)) (List.length t3) (lh_of [a; b])
 (* the SPEC: after the history the object's member tuple is b's, so it is equal to a fresh b, hashes like it,
    is found where a fresh b is stored and makes a fresh b found *)
 let history_oracle code sa sb sf obs =
@@ -407,8 +408,8 @@ let model (w : string list) : string =
     | [("set" | "map") as k; _; si; sp] ->
         let ins = parse_values si and probes = parse_values sp in
         if List.exists has_ptr ins || List.exists has_ptr probes then "BADCASE" else
-        let t = tbuild leaf_h leaf_eqb (kv_of ins) in
-        let look y = tfind leaf_h leaf_eqb t y in
+        let t = tbuild the_params leaf_h leaf_eqb (kv_of ins) in
+        let look y = tfind the_params leaf_h leaf_eqb t y in
         if k = "set" then
           Printf.sprintf "S %d %s" (List.length t)
             (if probes = [] then "." else String.concat "" (List.map (fun y -> b01 (look y <> None)) probes))
